@@ -27,7 +27,7 @@ func init() {
 		QuickFloor: 1500, ThoroughFloor: 40000, CaseTimeout: 8 * time.Second,
 		RequiredCounters: []string{"release_funcs_checked_inside", "quiescent_release_audits", "stale_resolver_results", "final_all_released_audits", "drop_causes_checked", "stale_released_calls", "setcontext_same_context_calls", "RefCountLock"},
 		Rule: "each case runs 2-4 reference actors (AddRef with and without callback, Release, double Release), an invalidator calling released() of the newest value, a context changer (SetContext new/same, ClearContext, cancelling the root context behind the container's back) and consumers (Wait/Resolve/ResolveWithReleased/Access) against a resolver with scripted outcomes (value, error, error with release func, slow, returns a value after its context was cancelled), both keep-unreferenced settings; " +
-			"every release function counts itself and inspects the target container and the per-reference 'last callback' table from inside the call; at quiescence and after a final ClearContext the release counts are audited; non-trivial = at least one stale resolver result or one released() racing the last Release; distinct = distinct event orders",
+			"every release function counts itself and inspects the target container and the per-reference 'last callback' table from inside the call; at quiescence and after a final ClearContext the release counts are audited; late released() calls of long-replaced results, released() called from inside reference callbacks, SetContext with the context already held, cancellation of contexts that were replaced earlier, already-done contexts, resolver errors that wrap context.Canceled and results equal to the zero value are part of the workload; a result that was delivered to a reference callback may only be released after its released(), a context change or the last Release (refcount-result-dropped-without-cause); templates: zero-value, stale-released; non-trivial = at least one stale resolver result or one released() racing the last Release; distinct = distinct event orders",
 		Assumptions: rfAssume,
 	}
 	Registry["C09"] = Spec{
